@@ -4,7 +4,7 @@
    [pack]/[unpack] model ormsgpack.packb/unpackb (Model/C01.v); the header constants and ormsgpack's
    nesting limits come from Gen/C01_RowFmt.v, regenerated on every run. *)
 From Coq Require Import List NArith ZArith Bool.
-From Orso Require Import Gen.C01_RowFmt Model.C01 Model.C01_Sched Proofs.C01 Proofs.C01_Sched.
+From Orso Require Import Gen.C01_RowFmt Model.C01 Model.C01_Sched Model.C01_Sess Proofs.C01 Proofs.C01_Sched Proofs.C01_Sess.
 Import ListNotations.
 Open Scope N_scope.
 
@@ -284,3 +284,73 @@ Example C01_shared_header_variant_refuted :
   (exists rec, shv_result (snd (run shv_step shv_fin [0; 0; 0; 0; 1; 1; 1; 1]%nat hdr0 (shv_start inp))) 0%nat = Some (Ok rec)
                /\ decode_row rec = Ok [CVal (MInt 1)]).
 Proof. split; eexists; (split; [vm_compute; reflexivity|]); vm_compute; reflexivity. Qed.
+
+(* ---- round 7: sessions on row OBJECTS.  A Row is a tuple, but the lists / maps it holds can be changed by whoever
+   holds them, and the object carries lazily filled state (the size cached by nbytes(), which DataFrame.append
+   calls on every row).  [sess_step] (Model/C01_Sess.v) is the step function: make an object (directly / through
+   DataFrame.append), nbytes(), the read-only accessors, an in-place change of a held container, as_bytes + from_bytes.
+   [vals_step] is the values-only reading of the same steps (no cached state). ---- *)
+
+(* History independence: after ANY session, as_bytes of object r is the encoder applied to the values object r holds
+   now (so every theorem above applies to that record), the step changes nothing, and the record decodes through the
+   object's class to exactly these values. *)
+Theorem C01_session_emit :
+  forall (ops : list sop) (r : nat) (ts : N) (row : list mval),
+  nth_error (fold_left vals_step ops []) r = Some row ->
+  let h := fst (sess_run [] ops) in
+  fst (sess_step h (SEmit r ts)) = h /\
+  exists dec,
+    snd (sess_step h (SEmit r ts)) = REmit row (encode_row ts row) dec /\
+    (forall rec, encode_row ts row = Ok rec -> no_datetime row = true -> dec = Some (Ok (map CVal row))) /\
+    (forall rec, encode_row ts row = Ok rec -> dec = Some (decode_row rec)).
+Proof. exact session_emit. Qed.
+Print Assumptions C01_session_emit.
+
+(* nbytes(), the accessors and as_bytes leave the values of every object alone. *)
+Theorem C01_session_observers_change_nothing :
+  forall (h : heap) (op : sop),
+  (match op with SSize _ | SRead _ _ | SEmit _ _ => True | _ => False end) ->
+  map r_vals (fst (sess_step h op)) = map r_vals h.
+Proof. exact session_observers_change_nothing. Qed.
+Print Assumptions C01_session_observers_change_nothing.
+
+(* The first nbytes() of an object is the length of the record as_bytes emits for the values held at that moment,
+   whatever the clock. *)
+Theorem C01_session_first_size :
+  forall (o : robj) (n : N),
+  r_size o = None -> snd (size_step o) = Ok n ->
+  exists rec, encode_row 0 (r_vals o) = Ok rec /\ n = len rec /\
+              forall ts rec', encode_row ts (r_vals o) = Ok rec' -> len rec' = n.
+Proof. exact session_first_size. Qed.
+Print Assumptions C01_session_first_size.
+
+(* non-vacuity: a row (1, ["a"], {"k": [1]}) stored through DataFrame.append (sized), its list appended to, its map's
+   inner list appended to and a key added, sized again (the stale 24 comes back: nbytes() is not part of the claim),
+   then serialised: the record decodes to the values held now. *)
+Definition nv_sess : list sop :=
+  [SNew (Made 3 false) [MInt 1; MArr [MStr [97]]; MMap [([107], MArr [MInt 1])]] true;
+   SUpd 0 1 [] (UAppend (MStr [98]));
+   SUpd 0 2 [0%nat] (UAppend (MInt 2));
+   SUpd 0 2 [] (UPut [122] MNil);
+   SSize 0; SRead 0 0].
+
+Example C01_session_nonvacuous :
+  nth_error (fold_left vals_step nv_sess []) 0 = Some [MInt 1; MArr [MStr [97]; MStr [98]]; MMap [([107], MArr [MInt 1; MInt 2]); ([122], MNil)]] /\
+  snd (sess_run [] nv_sess) = [RBirth None; RNone; RNone; RNone; RSize (Ok 24); RNone] /\
+  match snd (sess_step (fst (sess_run [] nv_sess)) (SEmit 0 7)) with
+  | REmit _ (Ok rec) dec => len rec = 30 /\ dec = Some (Ok [CVal (MInt 1); CVal (MArr [MStr [97]; MStr [98]]); CVal (MMap [([107], MArr [MInt 1; MInt 2]); ([122], MNil)])])
+  | _ => False
+  end.
+Proof. vm_compute. repeat split. Qed.
+
+(* the model does tell a kept record apart: the variant in which sizing keeps the packed record and as_bytes hands it
+   back ([frozen_size] / [frozen_emit]) emits, after size -> append, a record that decodes to the EARLIER values.
+   (A statement about the variant, not about /repo.) *)
+Definition kept_o : robj_f := frozen_upd (frozen_size (mk_f [MArr [MStr [97]]] None)) 0 [] (UAppend (MStr [98])).
+Example C01_kept_record_variant_refuted :
+  f_vals kept_o = [MArr [MStr [97]; MStr [98]]] /\
+  match frozen_emit kept_o 7 with
+  | Ok rec => decode_row rec = Ok [CVal (MArr [MStr [97]])]
+  | Raise _ => False
+  end.
+Proof. vm_compute. split; reflexivity. Qed.
